@@ -167,6 +167,14 @@ def fresh(e: ast.expr, model: Model, module: str, params: Set[str], locals_ok: S
             return True, "class object"
         if e.id in params:
             return False, f"parameter `{e.id}` (caller-owned object stored in the session)"
+        # a module-level name bound once to an immutable literal (a hoisted default such as the string encoding)
+        gq = model.resolve_name(module, e.id)
+        if gq and gq.rsplit(".", 1)[0] in model.modules:
+            gm, gn = gq.rsplit(".", 1)
+            sts = [s_ for s_ in model.modules[gm].globals_.get(gn, []) if isinstance(s_, (ast.Assign, ast.AnnAssign))]
+            if len(sts) == 1 and len(model.modules[gm].globals_.get(gn, [])) == 1 and sts[0].value is not None and isinstance(sts[0].value, ast.Constant) and \
+                    isinstance(sts[0].value.value, (str, bytes, int, float, bool, type(None))):
+                return True, "module-level immutable literal"
         return False, f"module-level name `{e.id}`"
     if isinstance(e, ast.Attribute):
         q = model.resolve_name(module, norm(e.value)) if isinstance(e.value, (ast.Name, ast.Attribute)) else None
@@ -259,6 +267,10 @@ def check(model: Model, run: Run) -> None:
             continue
         params = set(init.params()[1:])
         locals_ok = {t.id for s in init.node.body if isinstance(s, ast.Assign) and isinstance(s.value, ast.Constant) for t in s.targets if isinstance(t, ast.Name)}
+        # locals that copy a module-level immutable literal are just as constant
+        for s in init.node.body:
+            if isinstance(s, ast.Assign) and isinstance(s.value, ast.Name) and s.value.id not in params and fresh(s.value, model, c.module, params, set())[0]:
+                locals_ok |= {t.id for t in s.targets if isinstance(t, ast.Name)}
         for s in walk_no_nested(init.node):
             if isinstance(s, (ast.Assign, ast.AnnAssign)) and s.value is not None:
                 for t in (s.targets if isinstance(s, ast.Assign) else [s.target]):
